@@ -460,7 +460,14 @@ pub fn c04_slot_phase(ctx: &mut Ctx) {
                                     Slot::Placeholder => format!("_vfunc_{i}"),
                                 })
                                 .collect();
-                            let got: Vec<String> = b.efiles.get("ksw_m").and_then(|f| f.struct_("TVftable")).map(|s| s.fields.iter().map(|f| f.name.clone()).collect()).unwrap_or_default();
+                            let Some(vs) = b.efiles.get("ksw_m").and_then(|f| f.struct_("TVftable")) else {
+                                return R { bad: Some(("C04/vftable-struct-missing".into(), format!("a vftable block of {} slots was declared but no `TVftable` struct is emitted", want.len()), case())), accepted: true };
+                            };
+                            let has_ptr = b.efiles.get("ksw_m").and_then(|f| f.struct_("T")).map(|s| s.fields.first().map(|f| f.name == "vftable").unwrap_or(false)).unwrap_or(false);
+                            if !has_ptr {
+                                return R { bad: Some(("C04/vftable-pointer-missing".into(), "the type declares a vftable block but has no vftable pointer field first".into(), case())), accepted: true };
+                            }
+                            let got: Vec<String> = vs.fields.iter().map(|f| f.name.clone()).collect();
                             let reg = b.ok.state.type_registry().get(&ItemPath::from("ksw_m::TVftable")).and_then(|i| i.size());
                             if got != want {
                                 return R { bad: Some(("C04/slot-sequence".into(), format!("expected slots {want:?}, emitted table fields {got:?}"), case())), accepted: true };
